@@ -8,6 +8,7 @@ import SwcVerif.Model.Dsu
 import SwcVerif.Model.Subtree
 import SwcVerif.Model.Asc
 import SwcVerif.Model.Redirect
+import SwcVerif.Model.Population
 
 def dispatch (op : String) (args : List String) : String :=
   match op with
@@ -25,6 +26,8 @@ def dispatch (op : String) (args : List String) : String :=
   | "subtree" | "tosub" | "subtopo" | "cutenter" | "cutdepth" | "cutleave" | "cuttype" | "cutorder" | "cuttip" => Sub.handle op args
   | "asc" | "asclex" => Asc.handle op args
   | "redirect" | "cat" => Redir.handle op args
+  | "lazy" => Pop.handleLazy args
+  | "chain" => Pop.handleChain args
   | "swcline" => SwcText.handleLine args
   | "swcread" => SwcText.handleRead args
   | "swcwrite" => SwcText.handleWrite args
